@@ -313,6 +313,16 @@ func c39(c *engine.Ctx, pkg string) {
 			return isFA && engine.FieldNameOf(fa) == list && engine.Unwrap(fa.X) == arm.val
 		}
 		okDep := isCmp && (lenOfArm(cmp.X) || lenOfArm(cmp.Y))
+		if !okDep {
+			// the decision may be delegated to a helper: it still has to be
+			// computed from the length of this arm's list
+			engine.WalkBack(val, func(v ssa.Value) bool {
+				if lenOfArm(v) {
+					okDep = true
+				}
+				return !okDep
+			})
+		}
 		okEmpty := emptyEnds
 		if isCmp && lenOfArm(cmp.X) {
 			if k, isK := engine.ConstInt(cmp.Y); isK {
